@@ -214,6 +214,8 @@ def emit_rs(path):
         if has_schema(t) and can_de(t):
             guard = '    #[cfg(feature = "cfg_std")]\n' if needs_std(t) else ''
             lines.append('%s    v.push(sch::<%s>(%d));' % (guard, rust(t), i))
+    for (i, name) in rec_entries():
+        lines.append('    v.push(sch::<crate::items_rec::%s>(%d));' % (name, i))
     lines += ['    v', '}', '']
     src = '\n'.join(lines)
     old = open(path).read() if os.path.exists(path) else None
